@@ -122,6 +122,7 @@ func (d *Deque[T]) PopFront() T {
 		d.a[d.front] = zero
 		d.front = 0
 		d.back = -1
+		d.gen++
 		return item
 	}
 	d.a[d.front] = zero
@@ -142,6 +143,7 @@ func (d *Deque[T]) PopBack() T {
 		d.a[d.back] = zero
 		d.front = 0
 		d.back = -1
+		d.gen++
 		return item
 	}
 	d.a[d.back] = zero
